@@ -58,7 +58,7 @@ func genCase(t *rapid.T) Case {
 			continue
 		}
 		st := Step{Slot: rapid.SampledFrom([]int{0, 0, 1, 1, 2, -1}).Draw(t, "slot")}
-		st.Kind = rapid.SampledFrom([]string{"open", "open", "data", "data", "poll", "close", "bsend", "bsend", "bclose", "group", "group", "group", "open-race"}).Draw(t, "kind")
+		st.Kind = rapid.SampledFrom([]string{"open", "open", "data", "data", "poll", "close", "bsend", "bsend", "bclose", "group", "group", "group", "open-race", "mute-session"}).Draw(t, "kind")
 		switch st.Kind {
 		case "data":
 			st.Arg = rapid.SampledFrom([]string{"valid", "valid", "valid", "malformed", "wrong-type", "empty-list", "not-base64",
@@ -68,6 +68,8 @@ func genCase(t *rapid.T) Case {
 			st.Arg = rapid.SampledFrom([]string{"valid", "valid", "valid", "malformed", "wrong-type"}).Draw(t, "arg")
 		case "bsend":
 			st.N = rapid.IntRange(1, 25).Draw(t, "nsend")
+		case "mute-session":
+			st.N = rapid.IntRange(0, 5).Draw(t, "nmute")
 		case "bclose":
 			st.Drain = rapid.Bool().Draw(t, "drain")
 		case "group":
@@ -212,6 +214,31 @@ func runCase(c *Case) vh.Outcome {
 				}
 			}
 			*s = slot{state: "open", id: nid, bc: bc, sends: &sync.WaitGroup{}}
+		case "mute-session":
+			// a session of its own with a backend that only ever writes (an event stream): it never answers the close frame
+			o.Classes = append(o.Classes, "close-with-backend-that-never-reads")
+			ctr++
+			mid, mbc, mres := r.Open(fmt.Sprintf("/mute/c12-%d", ctr), 1, nil, callTimeout)
+			if err := answered(mres); err != nil || mres.Status != 200 || mbc == nil {
+				return fail(i, "open of a session whose backend never reads: %v status %d", err, mres.Status)
+			}
+			if st.N > 0 {
+				dres := r.Call("POST", r.ShimPath+"/data", dataBody(mid, "valid", st.N), nil, callTimeout)
+				if err := answered(dres); err != nil || dres.Status != 200 {
+					return fail(i, "data post on a session whose backend never reads: %v status %d", err, dres.Status)
+				}
+			}
+			cres := r.Call("POST", r.ShimPath+"/close", shimrig.IDBody(mid), nil, callTimeout)
+			if err := answered(cres); err != nil || cres.Status != 200 {
+				return fail(i, "close of a session whose backend never reads: %v status %d", err, cres.Status)
+			}
+			if !mbc.ObservePeerClose(10 * time.Second) {
+				return fail(i, "close answered 200 but the backend websocket (whose server end never reads and so never answers the close frame) was still open 10s later")
+			}
+			pres := r.Call("POST", r.ShimPath+"/poll", shimrig.IDBody(mid), nil, callTimeout)
+			if err := answered(pres); err != nil || pres.Status != 400 {
+				return fail(i, "poll on a closed session: %v status %d (want 400)", err, pres.Status)
+			}
 		case "open-race":
 			// an open whose backend handshake is refused after 300 ms overlaps a successful open; a third open follows
 			if s == nil || s.state == "open" {
